@@ -189,3 +189,55 @@ Proof.
     exists st2. cbn [write_many flat_write_many]. rewrite E1. cbn [bind].
     rewrite E2, <- F1. auto.
 Qed.
+
+(* byte-level reading of [flat_write]: inside the window the data, outside the old memory *)
+Lemma flat_write_inside mem addr data (i : nat) :
+  0 <= addr -> addr + zlen data <= zlen mem ->
+  (Z.to_nat addr <= i < Z.to_nat addr + length data)%nat ->
+  nth_error (flat_write mem addr data) i = nth_error data (i - Z.to_nat addr).
+Proof.
+  intros Ha He Hi. unfold flat_write, zlen in *.
+  assert (Lf : length (firstn (Z.to_nat addr) mem) = Z.to_nat addr)
+    by (rewrite firstn_length; lia).
+  rewrite nth_error_app2 by lia. rewrite Lf.
+  rewrite nth_error_app1 by lia. reflexivity.
+Qed.
+
+Lemma flat_write_outside mem addr data (i : nat) :
+  0 <= addr -> addr + zlen data <= zlen mem ->
+  (i < Z.to_nat addr \/ Z.to_nat addr + length data <= i)%nat ->
+  nth_error (flat_write mem addr data) i = nth_error mem i.
+Proof.
+  intros Ha He Hi. unfold flat_write, zlen in *.
+  assert (Lf : length (firstn (Z.to_nat addr) mem) = Z.to_nat addr)
+    by (rewrite firstn_length; lia).
+  destruct Hi as [Hi|Hi].
+  - rewrite nth_error_app1 by lia.
+    rewrite <- (firstn_skipn (Z.to_nat addr) mem) at 2.
+    rewrite nth_error_app1 by lia. reflexivity.
+  - rewrite nth_error_app2 by lia. rewrite nth_error_app2 by lia. rewrite Lf.
+    replace (Z.to_nat (addr + Z.of_nat (length data))) with (Z.to_nat addr + length data)%nat by lia.
+    rewrite <- (firstn_skipn (Z.to_nat addr + length data) mem) at 2.
+    rewrite nth_error_app2 by (rewrite firstn_length; lia).
+    rewrite firstn_length. f_equal. lia.
+Qed.
+
+(* the statement of C18 read byte by byte: the addressed bytes are the data, every other
+   byte of the 0x4300-byte image keeps its value, every region keeps its size *)
+Lemma write_cart_data_bytes st data addr :
+  wf_regions st -> 0 <= addr -> addr + zlen data <= data_end ->
+  exists st', write_cart_data st data addr = Ok st' /\ map zlen st' = map zlen st /\
+    (forall i, (Z.to_nat addr <= i < Z.to_nat addr + length data)%nat ->
+               nth_error (flat st') i = nth_error data (i - Z.to_nat addr)) /\
+    (forall i, (i < Z.to_nat addr \/ Z.to_nat addr + length data <= i)%nat ->
+               nth_error (flat st') i = nth_error (flat st) i).
+Proof.
+  intros Hwf Ha He.
+  destruct (write_cart_data_ok st data addr Hwf Ha He) as (st' & E & W & F).
+  pose proof (wf_regions_flat_len st Hwf) as L.
+  exists st'. split; [exact E|]. split.
+  - unfold wf_regions in *. congruence.
+  - rewrite F. split; intros i Hi.
+    + apply flat_write_inside; lia.
+    + apply flat_write_outside; lia.
+Qed.
